@@ -143,14 +143,13 @@ static void rt64(const vcase *c, enc64_fn enc, dec64_fn dec) {
 static void h_bp64(const vcase *c) { rt64(c, varintBP128Encode64, varintBP128Decode64); }
 static void h_bpd64(const vcase *c) { rt64(c, varintBP128DeltaEncode64, varintBP128DeltaDecode64); }
 
-/* bp32_cap L cap ... : encode (meta == NULL), decode with capacity cap */
+/* bp32_cap L [cap] ... : encode (meta == NULL); with cap: decode with capacity cap */
 static void cap32(const vcase *c, enc32_fn enc, dec32_fn dec) {
     size_t count, n;
     uint64_t *v64 = arg_list(c, 0, &count);
-    size_t cap = (size_t)arg_u64(c, 1);
     uint32_t *v = to32(v64, count);
     gbuf g = do_enc32(enc, v, count, &n, 0);
-    if (count > 0 && n <= g.size) do_dec32(dec, g.p, n, cap, v, count);
+    if (c->argc >= 2 && count > 0 && n <= g.size) do_dec32(dec, g.p, n, (size_t)arg_u64(c, 1), v, count);
     gbuf_free(&g);
     free(v); free(v64);
 }
@@ -159,9 +158,8 @@ static void h_bpd32_cap(const vcase *c) { cap32(c, varintBP128DeltaEncode32, var
 static void cap64(const vcase *c, enc64_fn enc, dec64_fn dec) {
     size_t count, n;
     uint64_t *v = arg_list(c, 0, &count);
-    size_t cap = (size_t)arg_u64(c, 1);
     gbuf g = do_enc64(enc, v, count, &n, 0);
-    if (count > 0 && n <= g.size) do_dec64(dec, g.p, n, cap, v, count);
+    if (c->argc >= 2 && count > 0 && n <= g.size) do_dec64(dec, g.p, n, (size_t)arg_u64(c, 1), v, count);
     gbuf_free(&g);
     free(v);
 }
